@@ -199,11 +199,11 @@ def greenery_wrong(rx):
     return _GREENERY[rx]
 
 
-def impl_regex(rx, inp, bytes_mode=False, chunks=None):
+def impl_regex(rx, inp, bytes_mode=False, chunks=None, greedy=None):
     """-> ('ok', consumed, stored) | ('nonterminal',) | ('other', name)"""
     import cpppo
     from cpppo import automata as A, dotdict
-    key = (rx, bytes_mode)
+    key = (rx, bytes_mode, greedy)
     m = _MACHINES.get(key)
     if m is None:
         try:
@@ -211,7 +211,7 @@ def impl_regex(rx, inp, bytes_mode=False, chunks=None):
                 # for a third of the expressions a machine that DROPS its input is built first from the very same expression: machines are
                 # independent of one another, whatever was built before
                 (A.regex_bytes if bytes_mode else A.regex)(initial=rx, context='r', terminal=True, regex_states=A.state_drop)
-            m = (A.regex_bytes if bytes_mode else A.regex)(initial=rx, context='r', terminal=True)
+            m = (A.regex_bytes if bytes_mode else A.regex)(initial=rx, context='r', terminal=True, **({} if greedy is None else {'greedy': greedy}))
         except Exception as e:
             return ('build', type(e).__name__)
         if len(_MACHINES) > 400:
@@ -347,6 +347,21 @@ def run(ctx):
                                   'regex machine does not consume/accept the longest viable prefix of the input')
         if len(sample_rows) < 4 and meta:
             sample_rows.append((meta[0][0], meta[0][2], outs[0]))
+    # machines built non-greedy (the default of the string wrappers): however the input is chunked, the result is that of the whole input
+    nng = 0
+    for rx in CORPUS + ['a+b*', 'a*', '(ab)+', '[ab]+c?', 'a{1,3}']:
+        for s in rng.sample(all5, 25 if not ctx.thorough else 120):
+            whole = impl_regex(rx, s, greedy=False)
+            for size in (1, 2):
+                nng += 1
+                ch = impl_regex(rx, s, greedy=False, chunks=[s[i:i + size] for i in range(0, len(s), size)]) if s else whole
+                if ch != whole:
+                    nbad += 1
+                    if nbad <= 3:
+                        ctx.violation(dict(regex=rx, greedy=False, input=s, chunk_size=size, whole=repr(whole), chunked=repr(ch)),
+                                      'regex machine result depends on how the input is chunked')
+                    break
+    ctx.coverage['non_greedy_chunked_runs'] = nng
     # bytes machines with multi-byte symbols (2-, 3- and 4-byte UTF-8, Latin-1 range included), and chunked feeding
     nb = 0
     nknown = 0
